@@ -121,8 +121,16 @@ func (j *Job) modelBudget(id string) bool {
 		j.mbCount = map[string]int{}
 	}
 	j.mbCount[id]++
-	return j.mbCount[id] <= 3
+	if j.mbCount[id] > 3 {
+		return false
+	}
+	// a violation that shows on every template is witnessed on the first sites only (the other
+	// sites are counted as further instances): keeps a badly broken tree from taking hours
+	n, _ := globalModelBudget.LoadOrStore(id, new(int64))
+	return atomic.AddInt64(n.(*int64), 1) <= 60
 }
+
+var globalModelBudget sync.Map
 
 type PathResult struct {
 	Trail       []int
